@@ -174,7 +174,8 @@ Definition acase_ok (r : raw_oracles) (creds : list cred) (docs : list schema_do
     match get_field_slot_index (a_field a) (a_type a) d,
           fst (to_core_claim (mk_oracles r) c None), a_enc a with
     | Ok i, Ok cl, Some e => Z.eqb (raw_slot cl i) (z_of_limbs e)
-    | Ok _, Err _, None => true         (* a named field that the credential lacks: building fails *)
+    | Ok _, Ok _, None => false         (* a claim although the designated field is absent *)
+    | Ok _, Err _, _ => true            (* some designated field is absent: building fails *)
     | Err _, _, _ => true
     | _, _, _ => false
     end
